@@ -360,14 +360,14 @@ def exec (F : Facts) (L : Logic) (cfg : JwksSet) (s : State) : Act → Option (S
       -- an aborted download returns at once: its updater runs to its first schedule point
       let (s2, o2) := if create && aborted then runBlock F f s1 else (s1, [])
       let o3 : List Obs := if create && F.spawnPoint then [Obs.point (.caller c) "spawn"] else []
-      if s2.crashed then some (s2, o1 ++ o2) else
+      if s2.crashed then some (s2, Obs.ask c :: (o1 ++ o2)) else
       (match s2.inflight with
        | none =>   -- `inflight.wait()` on a nil request: panic
          some ({ s2 with crashed := true, callers := upd s2.callers c { s2.callers c with pc := .done .panic } },
-               o1 ++ o2 ++ o3 ++ [.finish c .panic])
+               Obs.ask c :: (o1 ++ o2 ++ o3 ++ [.finish c .panic]))
        | some g =>
          some ({ s2 with callers := upd s2.callers c { s2.callers c with pc := .atSelect g seen } },
-               o1 ++ o2 ++ o3 ++ [.point (.caller c) "select"]))
+               Obs.ask c :: (o1 ++ o2 ++ o3 ++ [.point (.caller c) "select"])))
     | _ => none
   | .wake c viaCtx =>
     match (s.callers c).pc with
